@@ -881,6 +881,11 @@ pub fn run(ctx: &Ctx) -> i32 {
     }
     let (shards, cases) = ctx.tier.pick((8, 2500), (64, 30_000));
     add(run_shards(ctx, "trees", shards, cases, case_strategy, check_tree));
+    crate::fuzzrun::golden("json_ser", &mut stats, &mut viol);
+    if ctx.tier == vcommon::ev::Tier::Thorough {
+        let seeds: Vec<Vec<u8>> = (0..64u8).map(|i| vec![i; 24 + i as usize]).collect();
+        crate::fuzzrun::campaign(ctx, "json_ser", crate::fuzzrun::fuzz_secs(240), &seeds, &mut stats, &mut viol);
+    }
     Report::new(RULE)
         .exhaustive(false)
         .assume("serde_json::to_vec (compact formatter) is the reference encoding; serde_json accepts bool/float/option keys, so for refused key kinds the oracle is the statement (an error), not serde_json")
@@ -890,6 +895,9 @@ pub fn run(ctx: &Ctx) -> i32 {
 }
 
 pub fn replay(lane: &str, case: serde_json::Value) -> CaseResult {
+    if lane == "fuzz" {
+        return crate::fuzzrun::replay(&case);
+    }
     let mut buf = vec![0u8; 4096];
     let mut stats = Stats::default();
     if lane == "trees" {
